@@ -3,7 +3,7 @@
    compression.go (truncWriter, flateWriteWrapper.Close check), mask.go (maskBytes), prepared.go
    (frame cache).  Definitions only.  compress/flate is an oracle: operations carry the chunks
    the real flate.Writer handed to the truncWriter (recorded by the harness). *)
-From Verif Require Import Lib.Base Lib.Sx.
+From Verif Require Import Lib.Base Lib.Sx Lib.WsSha1.
 From Verif Require Import Gen.Gen_websocket.
 Open Scope N_scope.
 
@@ -353,10 +353,10 @@ Definition do_close (c : cfg) (s : cst) (chunks : list bytes) : res (cst * N) :=
   else Ok (s, eNoHandle).
 
 (* WriteMessage: [wchunks] flate output during Write, [cchunks] during Close *)
-Definition do_write_message (c : cfg) (s : cst) (t : N) (p : bytes) (wchunks cchunks : list bytes)
+Definition do_write_message (c : cfg) (s : cst) (t : N) (p : bytes) (ichunks wchunks cchunks : list bytes)
   : res (cst * N) :=
   if srv c && (negb (comp s) || negb (ewc s)) then
-    let* r := prep_write c s t [] in
+    let* r := prep_write c s t ichunks in
     let '(s1, e) := r in
     if negb (e =? 0) then Ok (s1, e)
     else
@@ -367,7 +367,7 @@ Definition do_write_message (c : cfg) (s : cst) (t : N) (p : bytes) (wchunks cch
       (* the fast path uses a messageWriter of its own: c.writer and the handle are untouched *)
       lift_mw s1 (flush_frame c m1 true rest)
   else
-    let* r := do_next c s t [] in
+    let* r := do_next c s t ichunks in
     let '(s1, e) := r in
     if negb (e =? 0) then Ok (s1, e)
     else
@@ -399,7 +399,7 @@ Definition cst0 (m : mws) (cp : bool) (l : Z) : cst := mkS m false 0 false false
 Definition prepared_frame (is_srv cp : bool) (l : Z) (t : N) (p : bytes) (ks : list bytes)
            (wchunks cchunks : list bytes) : res (bytes * list bytes * N) :=
   let c := mkC is_srv (defaultWBuf + maxHdr) in
-  let* r := do_write_message c (cst0 (mws0 ks) cp l) t p wchunks cchunks in
+  let* r := do_write_message c (cst0 (mws0 ks) cp l) t p [] wchunks cchunks in
   let '(s1, e) := r in
   Ok (concat (rev_append (out (mw s1)) []), keys (mw s1), e).
 
@@ -546,8 +546,105 @@ Fixpoint reassemble (cur : option (N * bool * list bytes)) (fs : list pframe)
         end
   end.
 Definition messages (fs : list pframe) := reassemble None fs.
+
+(* the same with the control frames kept, in wire order: (opcode, RSV1 of the first frame,
+   payload); a data message appears where its final frame is *)
+Fixpoint events_from (cur : option (N * bool * list bytes)) (fs : list pframe)
+  : option (list (N * bool * bytes)) :=
+  match fs with
+  | [] => match cur with None => Some [] | Some _ => None end
+  | f :: t =>
+      if op_control (pf_op f) then
+        match events_from cur t with
+        | Some l => Some ((pf_op f, false, pf_payload f) :: l) | None => None end
+      else if pf_op f =? 0 then
+        match cur with
+        | None => None
+        | Some (ty, z, acc) =>
+            if pf_fin f then
+              match events_from None t with
+              | Some l => Some ((ty, z, concat (rev (pf_payload f :: acc))) :: l) | None => None end
+            else events_from (Some (ty, z, pf_payload f :: acc)) t
+        end
+      else
+        match cur with
+        | Some _ => None
+        | None =>
+            let z := 4 <=? pf_rsv f in
+            if pf_fin f then
+              match events_from None t with
+              | Some l => Some ((pf_op f, z, pf_payload f) :: l) | None => None end
+            else events_from (Some (pf_op f, z, [pf_payload f])) t
+        end
+  end.
+Definition events (fs : list pframe) := events_from None fs.
+Definition data_event (e : N * bool * bytes) : bool := negb (op_control (fst (fst e))).
 Definition controls (fs : list pframe) : list (N * bytes) :=
   map (fun f => (pf_op f, pf_payload f)) (filter (fun f => op_control (pf_op f)) fs).
+
+(* ================= the opening handshake (util.go, server.go, client.go) ================= *)
+(* computeAcceptKey: SHA-1 over the challenge key followed by keyGUID, base64 *)
+Definition compute_accept_key (k : bytes) : bytes := base64 (sha1 (k ++ websocket_keyGUID)).
+
+(* Dialer.Dial: what it demands of the response (client.go 355-385).  [rs_*] are the facts
+   about the response the code tests. *)
+Record hresp := mkResp {
+  rs_101 : bool;            (* resp.StatusCode == 101 *)
+  rs_upg : bool;            (* EqualFold(Upgrade, "websocket") *)
+  rs_conn : bool;           (* EqualFold(Connection, "upgrade") *)
+  rs_accept : bytes;        (* Sec-Websocket-Accept *)
+  rs_pmd : bool;            (* an extension named permessage-deflate is in the response *)
+  rs_snct : bool; rs_cnct : bool   (* ... its server_/client_no_context_takeover parameters *)
+}.
+(* 0 = connection established (second component: compression on), 1 = ErrBadHandshake,
+   2 = errInvalidCompression *)
+Definition client_decide (key : bytes) (r : hresp) : N * bool :=
+  if negb (rs_101 r) || negb (rs_upg r) || negb (rs_conn r)
+     || negb (bytes_eqb (rs_accept r) (compute_accept_key key)) then (1, false)
+  else if rs_pmd r then (if negb (rs_snct r) || negb (rs_cnct r) then (2, false) else (0, true))
+  else (0, false).
+
+(* Upgrader.Upgrade: the checks in the order of the code (server.go 107-158) *)
+Record hreq := mkReq {
+  rq_get : bool;            (* r.Method == "GET" *)
+  rq_resp_ext : bool;       (* the application put Sec-Websocket-Extensions into responseHeader *)
+  rq_conn : bool;           (* tokenListContainsValue(Connection, "upgrade") *)
+  rq_upg : bool;            (* tokenListContainsValue(Upgrade, "websocket") *)
+  rq_v13 : bool;            (* tokenListContainsValue(Sec-Websocket-Version, "13") *)
+  rq_origin : bool;         (* checkOrigin(r) *)
+  rq_key : bytes;           (* Sec-Websocket-Key *)
+  rq_protos : list bytes;   (* Subprotocols(r) *)
+  rq_exts : list bytes      (* names of the offered extensions, in order *)
+}.
+Record hcfg := mkCfg {
+  uc_protos : option (list bytes);   (* Upgrader.Subprotocols, None = nil *)
+  uc_resp_proto : bytes;             (* responseHeader.Get("Sec-Websocket-Protocol") *)
+  uc_comp : bool                     (* Upgrader.EnableCompression *)
+}.
+Inductive hdec := HReject (status : N) | HAccept (accept proto : bytes) (compress : bool).
+
+Definition mem_bytes (x : bytes) (l : list bytes) : bool := existsb (bytes_eqb x) l.
+Fixpoint first_common (server client : list bytes) : bytes :=
+  match server with
+  | [] => []
+  | s :: r => if mem_bytes s client then s else first_common r client
+  end.
+Definition select_subprotocol (u : hcfg) (q : hreq) : bytes :=
+  match uc_protos u with
+  | Some sp => first_common sp (rq_protos q)
+  | None => uc_resp_proto u
+  end.
+Definition pmd_name : bytes := [112;101;114;109;101;115;115;97;103;101;45;100;101;102;108;97;116;101].
+Definition upgrade_decide (u : hcfg) (q : hreq) : hdec :=
+  if negb (rq_get q) then HReject 405
+  else if rq_resp_ext q then HReject 500
+  else if negb (rq_conn q) then HReject 400
+  else if negb (rq_upg q) then HReject 400
+  else if negb (rq_v13 q) then HReject 400
+  else if negb (rq_origin q) then HReject 403
+  else if is_nil (rq_key q) then HReject 400
+  else HAccept (compute_accept_key (rq_key q)) (select_subprotocol u q)
+               (uc_comp u && mem_bytes pmd_name (rq_exts q)).
 
 (* ================= harness interface ================= *)
 Definition gen_step (s : N) : N := N.land (s * 5 + 12345) 65535.
@@ -577,6 +674,23 @@ Definition blen_of (is_srv : bool) (b : N) : N :=
 
 Definition zb (z : Z) : bool := negb (z =? 0)%Z.
 
+(* WriteJSON: NextWriter(TextMessage); Encoder.Encode = one Write of [enc]; Close even if the
+   Write failed; the first error wins *)
+Definition do_write_json (c : cfg) (s : cst) (enc : bytes) (ichunks wchunks cchunks : list bytes)
+  : res (cst * N) :=
+  let* r := do_next c s opText ichunks in
+  let '(s1, e) := r in
+  if negb (e =? 0) then Ok (s1, e)
+  else
+    let* r1 := do_write c s1 enc wchunks in
+    let* r2 := do_close c (fst r1) cchunks in
+    Ok (fst r2, if negb (snd r1 =? 0) then snd r1 else snd r2).
+
+Definition set_level (s : cst) (l : Z) : cst :=
+  mkS (mw s) (wopen s) (hkind s) (mwclosed s) (zopen s) (tws_ s) (comp s) (ewc s) l (pcache s).
+Definition set_ewc (s : cst) (b : bool) : cst :=
+  mkS (mw s) (wopen s) (hkind s) (mwclosed s) (zopen s) (tws_ s) (comp s) b (lvl s) (pcache s).
+
 (* harness convention: after WriteMessage / WriteJSON the application holds no writer handle *)
 Definition drop_handle (r : res (cst * N)) : res (cst * N) :=
   let* x := r in
@@ -585,6 +699,7 @@ Definition drop_handle (r : res (cst * N)) : res (cst * N) :=
 Definition step_op (c : cfg) (pms : list (N * bytes)) (s : cst) (op : sx) : res (cst * N) :=
   match op with
   | SL [SZ 0; SZ t] => do_next c s (Z.to_N t) []
+  | SL [SZ 0; SZ t; SL ich] => do_next c s (Z.to_N t) (sx_chunks ich)
   | SL [SZ 1; d; SL ch] =>
       match sx_data d with Some p => do_write c s p (sx_chunks ch) | None => Err 98 end
   | SL [SZ 2; d; SL ch] =>
@@ -592,31 +707,27 @@ Definition step_op (c : cfg) (pms : list (N * bytes)) (s : cst) (op : sx) : res 
   | SL [SZ 3; d; SL caps; SZ ewd; SL ch] =>
       match sx_data d with Some p => do_read_from c s p (sx_ns caps) (zb ewd) (sx_chunks ch) | None => Err 98 end
   | SL [SZ 4; SL ch] => do_close c s (sx_chunks ch)
+  | SL [SZ 5; SZ t; d; SL ich; SL wch; SL cch] =>
+      match sx_data d with
+      | Some p => drop_handle (do_write_message c s (Z.to_N t) p (sx_chunks ich) (sx_chunks wch) (sx_chunks cch))
+      | None => Err 98 end
   | SL [SZ 5; SZ t; d; SL wch; SL cch] =>
-      match sx_data d with Some p => drop_handle (do_write_message c s (Z.to_N t) p (sx_chunks wch) (sx_chunks cch))
-                      | None => Err 98 end
+      match sx_data d with
+      | Some p => drop_handle (do_write_message c s (Z.to_N t) p [] (sx_chunks wch) (sx_chunks cch))
+      | None => Err 98 end
   | SL [SZ 6; SZ idx; SL wch; SL cch] =>
       match nth_error pms (Z.to_nat idx) with
       | Some (t, p) => do_prepared c s (Z.to_N idx) t p (sx_chunks wch) (sx_chunks cch)
       | None => Ok (s, eNoHandle)
       end
+  | SL [SZ 7; SB enc; SL ich; SL wch; SL cch] =>
+      drop_handle (do_write_json c s enc (sx_chunks ich) (sx_chunks wch) (sx_chunks cch))
   | SL [SZ 7; SB enc; SL wch; SL cch] =>
-      drop_handle (
-      let* r := do_next c s opText [] in
-      let '(s1, e) := r in
-      if negb (e =? 0) then Ok (s1, e)
-      else
-        let* r1 := do_write c s1 enc (sx_chunks wch) in
-        let* r2 := do_close c (fst r1) (sx_chunks cch) in
-        Ok (fst r2, if negb (snd r1 =? 0) then snd r1 else snd r2))
+      drop_handle (do_write_json c s enc [] (sx_chunks wch) (sx_chunks cch))
   | SL [SZ 8; SZ t; d] =>
       match sx_data d with Some p => Ok (do_control c s (Z.to_N t) p) | None => Err 98 end
-  | SL [SZ 9; SZ l] =>
-      if valid_level l then
-        Ok (mkS (mw s) (wopen s) (hkind s) (mwclosed s) (zopen s) (tws_ s) (comp s) (ewc s) l (pcache s), eOK)
-      else Ok (s, eOther)
-  | SL [SZ 10; SZ b] =>
-      Ok (mkS (mw s) (wopen s) (hkind s) (mwclosed s) (zopen s) (tws_ s) (comp s) (zb b) (lvl s) (pcache s), eOK)
+  | SL [SZ 9; SZ l] => if valid_level l then Ok (set_level s l, eOK) else Ok (s, eOther)
+  | SL [SZ 10; SZ b] => Ok (set_ewc s (zb b), eOK)
   | _ => Err 98
   end.
 
@@ -655,15 +766,19 @@ Definition sx_frame (f : pframe) : sx :=
   SL [sbool (pf_fin f); sN (pf_rsv f); sN (pf_op f); sbool (pf_masked f); SB (pf_key f);
       sN (pf_form f); sN (pf_len f); SB (pf_payload f)].
 
-(* opening handshake, RFC 6455 section 4: which tampered exchanges must be refused
-   (kind 0: server responses seen by the client; kind 1: client requests seen by the server) *)
-Definition hs_expect (kind tamper : Z) : Z :=
-  if (kind =? 0)%Z then (if (tamper =? 0)%Z || (tamper =? 7)%Z then 0 else 1)%Z
-  else (if (tamper =? 0)%Z || (tamper =? 7)%Z || (tamper =? 8)%Z || (tamper =? 9)%Z then 0 else 1)%Z.
-
 Definition run_c13 (c : sx) : sx :=
   match c with
-  | SL [SZ 4; SZ kind; SZ tamper] => s_ok [SZ (hs_expect kind tamper)]
+  | SL [SZ 4; SZ 0; SZ _; SB key; SL [SZ a; SZ b; SZ d; SB acc; SZ e; SZ f; SZ g]] =>
+      let (code, z) := client_decide key (mkResp (zb a) (zb b) (zb d) acc (zb e) (zb f) (zb g)) in
+      s_ok [sN code; sbool z]
+  | SL [SZ 4; SZ 1; SZ _; SL [SZ a; SZ b; SZ d; SZ e; SZ f; SZ g; SB key; SL protos; SL exts];
+        SL [SZ hasp; SL sp; SB rp; SZ cmp]] =>
+      match upgrade_decide (mkCfg (if zb hasp then Some (sx_chunks sp) else None) rp (zb cmp))
+                           (mkReq (zb a) (zb b) (zb d) (zb e) (zb f) (zb g) key (sx_chunks protos) (sx_chunks exts)) with
+      | HReject st => s_ok [SZ 1; sN st]
+      | HAccept acc proto z => s_ok [SZ 0; SB acc; SB proto; sbool z]
+      end
+  | SL [SZ 5; SB key] => s_ok [SB (compute_accept_key key)]
   | SL [SZ 0; SZ r; SZ b; SZ cp; SL pms; SL ops; SL ks; SZ _] =>
       run_session (zb r) (Z.to_N b) (zb cp) (sx_pms pms) ops (sx_chunks ks)
   | SL [SZ 0; SZ r; SZ b; SZ cp; SL pms; SL ops; SL ks; SZ _; SB _] =>
